@@ -367,6 +367,18 @@ def step_impl(a, o, dirty, op):
         if dirty:
             return True, "?"
         return st[0] != "ok", _res(st)
+    if w[0] == "len":
+        # container protocol: len(obj) (may change the object: iNetX / IENA / iNET pack inside __len__)
+        st = guarded(lambda: len(o))
+        if dirty:
+            return True, "?"
+        return st[0] != "ok", _res(st)
+    if w[0] == "getitem":
+        k = int(w[1])
+        st = guarded(lambda: o[k])
+        if dirty:
+            return True, "?"
+        return st[0] != "ok", _res(st)
     return dirty, "bad-op"
 
 def run_ops_impl(a, opts, ops):
